@@ -76,7 +76,7 @@ def number(spec):
     return tree, nodes, name
 
 
-def harness(spec, N_objs, two_vars, abandoned_first=False, value_eq=False):
+def harness(spec, N_objs, two_vars, abandoned_first=False, value_eq=False, bare=False):
     tree, nodes, name = number(spec)
     idx = {id(n): i for i, n in enumerate(nodes)}
 
@@ -91,12 +91,17 @@ def harness(spec, N_objs, two_vars, abandoned_first=False, value_eq=False):
         def cond_expr(i):
             # conditions alternate over x.a, x.b and (two-variable mode) y.a so that no node's condition implies another's
             m = i % (3 if two_vars else 2)
+            if bare:
+                # the attribute on its own is the condition (its truth value): x.a, x.b, x.a, ...
+                return x.a if m == 0 else x.b
             if i == 0 and two_vars:
                 return and_(x.a > ks[0], y.a > ks[0])
             return (x.a > ks[i]) if m == 0 else (x.b > ks[i]) if m == 1 else (y.a > ks[i])
 
         def cond_val(i, ox, oy):
             m = i % (3 if two_vars else 2)
+            if bare:
+                return NOT(EQ(ox.a, 0)) if m == 0 else NOT(EQ(ox.b, 0))
             if i == 0 and two_vars:
                 return AND(ox.a > ks[0], oy.a > ks[0])
             return (ox.a > ks[i]) if m == 0 else (ox.b > ks[i]) if m == 1 else (oy.a > ks[i])
@@ -345,6 +350,11 @@ def cases(tier, seed):
         h, name = harness(t, 2, False, abandoned_first=True)
         nm = "tree %s|x|after an abandoned partial evaluation" % name
         cs.append(Case(nm + "|N=2", h, key=nm, reset=eql_reset, core=True, timeout=300 if tier == "quick" else 1200, max_paths=50000 if tier == "quick" else 400000, validate=1, cex_grace=10**9))
+    # conditions that are bare attributes (their truth value), also as the only condition of a refinement / of the base
+    for t in [N(ref=[L_]), N(ref=[L_, L_]), N(alts=[L_]), N(ref=[L_], alts=[L_])]:
+        h, name = harness(t, 2, False, bare=True)
+        nm = "tree %s|x|bare attributes as conditions" % name
+        cs.append(Case(nm + "|N=2", h, key=nm, reset=eql_reset, core=True, timeout=300 if tier == "quick" else 1200, max_paths=50000 if tier == "quick" else 400000, validate=1, cex_grace=10**9))
     # domain objects that compare equal without being the same object (dataclass equality): each is a binding of its own
     for t in [N(ref=[L_]), N(ref=[L_, L_]), N(alts=[L_]), N(alts=[L_, L_])]:
         h, name = harness(t, 2, False, value_eq=True)
@@ -365,7 +375,7 @@ def describe(tier):
     return dict(
         rule="rule trees written with the public with-block API: node i = condition over x.a / x.b / y.a with its own symbolic threshold k_i and its own inferred type T_i; "
         "shapes: nested refinements (depth <= 3), alternatives inside a refinement's block, alternative chains (<= 3), next_rule branches (<= 2), refinements inside "
-        "alternative / next_rule blocks and combinations (<= 6 branches); one-variable and two-variable (base binds x and y) variants; the one-variable trees again after an evaluation of the same query object that was consumed partly (1-2 results) and dropped; the same trees over domain objects with field equality (distinct but equal objects); plus trees whose branches each bind a variable of their own (v_i.a == x.a, 1-2 values) and build their conclusion from it. "
+        "alternative / next_rule blocks and combinations (<= 6 branches); one-variable and two-variable (base binds x and y) variants; the one-variable trees again after an evaluation of the same query object that was consumed partly (1-2 results) and dropped; the same trees with bare attributes (their truth value) as conditions and over domain objects with field equality (distinct but equal objects); plus trees whose branches each bind a variable of their own (v_i.a == x.a, 1-2 values) and build their conclusion from it. "
         "Tree notation in case names: i(R[..] A[..] X[..]) = node i with refinement chain R, alternatives A, next rules X, numbered in written order; "
         "non-trivial = >= 2 feasible paths and some instance inferred",
         bounds=dict(objects_per_domain="2 (quick) / 3 (thorough)", values_and_thresholds="unbounded integers", branches="<= 6"),
